@@ -277,6 +277,7 @@ impl ResumeState {
     }
 
     /// Get the set of completed file paths for quick lookup
+    #[allow(dead_code)] // Public API for state management
     pub fn completed_paths(&self) -> std::collections::HashSet<PathBuf> {
         self.completed_files
             .iter()
